@@ -1,7 +1,54 @@
 // harness commands owned by property C09
+//   c09_kw {}                 -> keyword lists that live outside /repo's text: sqlparser's
+//                                RESERVED_FOR_COLUMN_ALIAS / RESERVED_FOR_TABLE_ALIAS (as keywords.rs maps
+//                                them to strings) and the bundled SQLite's own keyword table
+//                                (sqlite3_keyword_count / sqlite3_keyword_name)
+//   c09_ident {s, quote}      -> sqlparser Display of Ident::new(s) and Ident::with_quote(quote, s)
 #![allow(unused_imports, dead_code)]
 use serde_json::{json, Value};
 
-pub fn dispatch(_cmd: &str, _req: &Value) -> Option<Value> {
-    None
+fn sqlite_keywords() -> Vec<String> {
+    let mut out = vec![];
+    unsafe {
+        let n = rusqlite::ffi::sqlite3_keyword_count();
+        for i in 0..n {
+            let mut p: *const std::os::raw::c_char = std::ptr::null();
+            let mut len: std::os::raw::c_int = 0;
+            if rusqlite::ffi::sqlite3_keyword_name(i, &mut p, &mut len) == 0 && !p.is_null() {
+                let bytes = std::slice::from_raw_parts(p as *const u8, len as usize);
+                out.push(String::from_utf8_lossy(bytes).to_string());
+            }
+        }
+    }
+    out
+}
+
+fn kw() -> Value {
+    use sqlparser::keywords::{ALL_KEYWORDS, ALL_KEYWORDS_INDEX, RESERVED_FOR_COLUMN_ALIAS, RESERVED_FOR_TABLE_ALIAS};
+    let name = |k: &sqlparser::keywords::Keyword| -> String {
+        ALL_KEYWORDS_INDEX
+            .iter()
+            .position(|x| x == k)
+            .map(|i| ALL_KEYWORDS[i].to_string())
+            .unwrap_or_default()
+    };
+    let col: Vec<String> = RESERVED_FOR_COLUMN_ALIAS.iter().map(name).collect();
+    let tab: Vec<String> = RESERVED_FOR_TABLE_ALIAS.iter().map(name).collect();
+    json!({"column_alias": col, "table_alias": tab, "sqlite": sqlite_keywords(),
+           "sqlite_version": rusqlite::version()})
+}
+
+fn ident(req: &Value) -> Value {
+    let text = crate::s(req, "s").to_string();
+    let q = crate::s(req, "quote").chars().next().unwrap_or('"');
+    json!({"bare": sqlparser::ast::Ident::new(text.clone()).to_string(),
+           "quoted": sqlparser::ast::Ident::with_quote(q, text).to_string()})
+}
+
+pub fn dispatch(cmd: &str, req: &Value) -> Option<Value> {
+    match cmd {
+        "c09_kw" => Some(kw()),
+        "c09_ident" => Some(ident(req)),
+        _ => None,
+    }
 }
